@@ -104,6 +104,9 @@ func (e *Exec) callsiteChecks(st *State, fn *types.Func, recv *Val, args []Val, 
 			extra["arg_recv"] = *recv
 		}
 		env := e.loopEnv(st, x.Pos(), extra)
+		if c.Kind == "trackresult" {
+			continue // assigned after the call (postCallTracks)
+		}
 		if c.Kind == "track" {
 			tracks = append(tracks, trackUpd{c, env})
 			continue
@@ -138,8 +141,11 @@ func (e *Exec) trackedGhost(st *State, name string) (Val, bool) {
 	if fc == nil {
 		return Val{}, false
 	}
+	if name == "completedrange" {
+		return Val{T: IntLit(-1), GT: types.Typ[types.Int]}, true // no range loop has run to completion yet
+	}
 	for _, c := range fc.Sites {
-		if c.Kind == "track" && c.Name == name {
+		if (c.Kind == "track" || c.Kind == "trackresult") && c.Name == name {
 			t := e.resolveTypeStr(&cenv{vals: map[string]Val{}, pkgPath: fc.Pkg}, c.Region)
 			return Val{T: e.sc.Const("ghost0:"+name, e.sr.sortOf(t)), GT: t}, true
 		}
